@@ -434,7 +434,10 @@ def rule_framecount(ctx):
         yield o
 
 
+
+
 RULES = [
+    ("C05.OFFSETTOL", 2, common.shared("c04", "rule_cmpkind", "C05.OFFSETTOL", keep=lambda o: o.construct.endswith(":offset-tolerance"))),
     ("C05.DTYPEFLOW", 3, common.rule_dtypeflow("C05.DTYPEFLOW")),
     ("C05.FRAMECOUNT", 8, rule_framecount),
     ("C05.EDGEPRED", 20, rule_edgepred),
